@@ -149,5 +149,11 @@ def verdict_expr(c, r, ir, real):
             % (ir, ir, o, real, real, ir, ir, "true" if ok else "false", ir, ir))
 
 
+def verdict_expr_noout(c, r, ir):
+    ok, why = b_python(c, r)
+    c["note"] = "output not recognised by the extractor (%s); %s" % (r.get("extract_err"), why)
+    return '[wf %s; false; %s; kf_nonsquare_encase %s; negb (layout_agrees %s)]' % (ir, "true" if ok else "false", ir, ir)
+
+
 def nontrivial(c, r):
     return r.get("result") == "ok" and any(len(t.members) >= 3 for t in c["tys"])
